@@ -9,10 +9,10 @@ TECH = "contract-based deductive verification: VCs generated from go/ssa of the 
 
 # property -> (level text, level note, design ref)
 CLAIMED = {
-    "C04": ("Soundness of the min/max overlap test proved for every operator, operand, block range, saturation state and row value in R∪{±inf} (EvaluateMinMaxCondition against covers/sat), range update (UpdateMinMaxIndex) and unsigned clamping proved against their mathematical specification; all loops by inductive invariant, no bound.",
-            "Trusted: go/ssa, the SSA->SMT encoder, the solvers. Floats modelled as extended reals (exact for floor/ceil/compare). Conversions (toInt64/ConvertToMinMaxInt64/ConvertToInt64, every dynamic numeric kind incl. named types) proved on the repaired tree (fix b2d7c7b). Tree induction and ingest/merge links: see DESIGN §7.", "§7 C04"),
-    "C12": ("Row-group limit test (blocksWithinMergeLimits) proved equal to its mathematical specification for all shapes and limits, with the overflow-free range stated as a precondition.",
-            "Trusted: go/ssa, encoder, solvers. Grouping loops of processPartitionBlocks/identifyFileMergeGroups: see DESIGN §7 for what is and is not yet under contract.", "§7 C12"),
+    "C04": ("Soundness of prefilter pruning proved at every level, with no bound: the min/max overlap test for every operator, operand, block range, saturation state and row value in R u {+-inf} (EvaluateMinMaxCondition against covers/sat); conversions and clamping for every dynamic numeric kind incl. named types (on the repaired tree, fix b2d7c7b); UpdateMinMaxIndex; the leaf evaluator (evaluatePrefilterCondition: a partition or minmax condition the row satisfies is never false on a block that holds the row); the tree evaluator by induction on the tree (evaluatePrefilterExpression verified against its own contract at its recursive calls, OR/AND loops by invariant: for every valuation of nodes consistent one level down with the documented AND/OR/leaf semantics, a block holding a row that satisfies the expression is admitted), EvaluateDataBlockMetadata and FilterDataBlocks (every block that holds such a row is in the result); and the merge link: mergeMinMaxIndexes returns exactly the union of the key sets with ranges containing both inputs' ranges, and a merged block's ranges contain the ranges of every source block of its group.",
+            "Trusted: go/ssa, the SSA->SMT encoder, the solvers. Floats modelled as extended reals (exact for floor/ceil/compare). The row is a ghost (uninterpreted partition ID and per-field values); 'block holds the row' (same partition ID, ranges cover the row's values) is the hypothesis: that flush establishes it for the rows it writes (the ingest link) is NOT under a C04 contract yet (DESIGN §19).", "§7 C04, §19"),
+    "C12": ("Layout limits of Merge proved with unbounded folds (sum over the members of a group, for groups of any length): in processPartitionBlocks the running totals are exactly the sums of the source blocks' Rows / UncompressedSize over the group, a block joins only if both totals stay within MaxRowGroupRows / MaxRowGroupBytes, finished groups are never touched again (inductive invariant over the list of groups), and every group handed to mergeDataBlocks — the one place blocks are combined — satisfies both limits (its precondition, proved at the call site after a frame argument: the callees write no index list); blocksWithinMergeLimits equals its mathematical specification; identifyFileMergeGroups returns groups of at least two files whose total number of files is within MaxFilesToMergePerOperation (fold of group lengths), and merge() issues exactly one delete operation per member of those groups, so the number of files removed at the commit (asserted at MetaStore.Update) is within the limit.",
+            "Stated for counters and limits in [0, 2^62), the range in which the Go additions are exact (preconditions of the top-level functions, listed in the evidence). The fold lemmas (empty, one element, step, extensionality, concatenation, non-negativity) are proved by induction on every run (prelude/isum-* obligations), not assumed. NOT decided: the MaxFileSize clause (needs sort.Slice's permutation property for the candidates), 'same minmax key set' (blockMergeKey is abstracted; the groups are formed inside one bucket but the bucket-key relation is not under contract), and that a merged block's own Rows equals the sum of its sources' (C17 counters).", "§7 C12, §18"),
     "C19": ("No-panic / in-bounds obligations and exact functional contracts (validSection) for the framing validators the read path relies on, proved for all 2^64 values of every offset and size field (compare-by-subtraction proved overflow-proof under the stated preconditions).",
             "Trusted: go/ssa, encoder, solvers; fmt.Errorf returns non-nil (extern). Library decoders and CRC collisions are assumptions.", "§7 C19"),
 }
@@ -64,8 +64,18 @@ CLAIMED.update({
 })
 
 CLAIMED.update({
-    "C17": ("Layout obligations of both writers, for every number of partitions/blocks, every grouping decision and every outcome of every store call, with no bound: in handleFlush (loop invariant + assertion where the footer is written) and in the merge path (copyDataBlock, mergeDataBlocks, processPartitionBlocks, executeMergeGroup as pre/postconditions carried through five loops) the first block's row data starts at offset 0, each block starts where the previous one ends, the recorded RowDataSize is exactly the number of bytes handed to the output file's writer for that block (ghost.written of the DataStore writer; compression stages, hashers and fan-out writers are proved not to be that writer), earlier records are never touched again, blockFilterRegionWriter.add returns (bytes buffered so far, len(section)) so sections are back to back in block order, finish writes the whole region and rebases every block's section offset exactly once by the region's position, and BlockFilterRegionOffset/Size put the region exactly at the end of the row data. On the read side FileMetadata.validate and ReadFileMetadata are under their C19 framing contracts (a file whose metadata violates this layout is rejected).",
-            "Go ints: the layout statements are made for files shorter than 2^63 bytes (flush: stated on the mathematical byte count; merge: ghost flag layoutOvf set exactly when an offset addition leaves the int range). Contiguity of the whole list is the induction over the proved per-step facts (DESIGN §14, on paper). NOT decided: that Rows / UncompressedSize / RowDataHash / BloomEntryCounts equal what the row data contains (only that a copied block keeps Rows and RowDataSize of its source), WriteFileFooter's byte layout beyond what validate/ReadFileMetadata check, codec/JSON/bloom round trips, the public read helpers end to end. io.Writer.Write's contract (a nil error means all of p was accepted) and DataStore.CreateFile handing out the file's writer are extern assumptions.", "§7 C17, §14"),
+    "C17": ("Layout obligations of both writers, for every number of partitions/blocks, every grouping decision and every outcome of every store call, with no bound: in handleFlush (loop invariant + assertion where the footer is written) and in the merge path (copyDataBlock, mergeDataBlocks, processPartitionBlocks, executeMergeGroup as pre/postconditions carried through five loops) the first block's row data starts at offset 0, each block starts where the previous one ends, the recorded RowDataSize is exactly the number of bytes handed to the output file's writer for that block (ghost.written of the DataStore writer; compression stages, hashers and fan-out writers are proved not to be that writer), earlier records are never touched again, blockFilterRegionWriter.add returns (bytes buffered so far, len(section)) so sections are back to back in block order, finish writes the whole region and rebases every block's section offset exactly once by the region's position, and BlockFilterRegionOffset/Size put the region exactly at the end of the row data. On the read side FileMetadata.validate and ReadFileMetadata are under their C19 framing contracts (a file whose metadata violates this layout is rejected). Counters, merge path only: a rebuilt block's recorded Rows is the number of rows the source scanners yielded and its recorded UncompressedSize is the number of bytes handed to its compression stage (every scanned row written with its length prefix and counted exactly once).",
+            "Go ints: the layout statements are made for files shorter than 2^63 bytes (flush: stated on the mathematical byte count; merge: ghost flag layoutOvf set exactly when an offset addition leaves the int range). Contiguity of the whole list is the induction over the proved per-step facts (DESIGN §14, on paper). NOT decided: the flush path's counters (partitionBuffer fields filled by processIngestRequest), RowDataHash and BloomEntryCounts (a copied block keeps the content description of its source — C11), WriteFileFooter's byte layout beyond what validate/ReadFileMetadata check, codec/JSON/bloom round trips, the public read helpers end to end. io.Writer.Write's contract (a nil error means all of p was accepted) and DataStore.CreateFile handing out the file's writer are extern assumptions.", "§7 C17, §14"),
+})
+
+CLAIMED.update({
+    "C01": ("No-false-negative links proved on the real code, each for all inputs: (L4) bloom evaluation is monotone — for one arbitrary ghost row and every valuation of expression nodes consistent one level down with the documented AND/OR/leaf semantics, filters that answer true for every entry of the row never rule out an expression the row satisfies (evaluateBloomCondition incl. the 'missing filter cannot disqualify' and field:token key cases, evaluateBloomExpression by induction on the tree with OR/AND loop invariants, evaluateBloomFilters; the same functions serve the file-level and the block-level test); (L5) the chunked filter reader hands the parser byte for byte the section the block's metadata declares, for any block order, gaps and chunking (readFullAt: a successful read leaves the file's content at that offset in the buffer; readChunkFrom / heldSection / filtersFor keep 'the chunk in hand is the file's content at chunkStart' and slice it at the block's offset; asserted where parseFilterSection is called); (L6) prefilter pruning is sound at every level (the C04 obligations: operators, tree induction, FilterDataBlocks keeps every block that holds a satisfying row); section validation and read planning (validateFilterSection, planBlockFilterReads).",
+            "A proof of links, not of the end-to-end statement: the composition (Query's concurrent pipeline forwards every surviving job; a block's filters hold its rows' entries — C18, whose indexRow body is an assumed contract; the row matcher agrees with indexing — C02, assumed matchRowBytes; the bloom library has no false negatives; files do not change while read; gjson/tokenizer determinism) is on paper in DESIGN §7 C01 and listed as assumptions. NOT decided: the regex guard's shape (L10) and the matcher's walk.", "§7 C01, §19"),
+})
+
+CLAIMED.update({
+    "C11": ("Content-preservation links of merge proved per function, for groups of any size and blocks of any number of rows: a rebuilt block (mergeDataBlocks) carries the group's partition ID, ranges that contain the ranges of every source block (mergeMinMaxIndexes: key set = union, each merged range contains both inputs'; UpdateMinMaxIndex), and a row count equal to the number of rows the source scanners yielded — every scanned row is written and counted exactly once — and a malformed source row stream fails the merge instead of truncating it (mergeDataBlocks, copyDataBlock); a copied block keeps everything that describes its content (partition ID, ranges, row count, sizes, hash, compression) and changes only its location; each scanner step consumes a strictly later extent (BlockRowScanner.Next).",
+            "A proof of links. NOT decided: that every source block lands in exactly one copy/merge group (the grouping's `used` bookkeeping is not under a C11 contract), the multiset of rows across the whole Merge, and equality of query answers before and after (follows on paper from these links plus C01/C02; DESIGN §7 C11). Source metadata truthfulness (Rows of a source block = rows in it) is C17's.", "§7 C11, §19"),
 })
 
 NOT_APPLICABLE = {
